@@ -3,6 +3,7 @@ Line protocol of the correspondence check: parsing of request lines into `Call`s
 canonical printing of results and state snapshots. See /verif/PROTOCOL.md.
 -/
 import Lockable.Model.Api
+import Lockable.Model.Sched
 namespace Lockable
 
 def joinWith (sep : String) (l : List String) : String := sep.intercalate l
@@ -143,19 +144,96 @@ def parseKind : String → Option Kind
   | "pool" => some .pool
   | _ => none
 
+/-! scheduled mode -/
+def parseStmt (toks : List String) : Option Stmt :=
+  match toks with
+  | ["lock", v, k] => do some (.lock (← parseVariant v) (← nat? k) none)
+  | ["lock", v, k, "soft", n] => do
+    let n ← nat? n
+    if n = 0 then none else some (.lock (← parseVariant v) (← nat? k) (some n))
+  | "op" :: slot :: rest => do some (.op (← nat? slot) (← parseGOp rest))
+  | ["drop", slot] => (nat? slot).map .drop
+  | ["count"] => some .count
+  | ["keys"] => some .keys
+  | _ => none
+
+def parseProg (s : String) : Option (List Stmt) :=
+  (s.splitOn ";").mapM fun st => parseStmt ((st.splitOn " ").filter (· ≠ ""))
+
+def eventStr (sorted : Bool) : Event → String
+  | .lock slot got => "lock" ++ toString slot ++ "=" ++ (if got then "guard" else "none")
+  | .op slot o => "op" ++ toString slot ++ "=" ++ outStr sorted o
+  | .count o => "count=" ++ outStr sorted o
+  | .keys o => "keys=" ++ outStr sorted o
+  | .ev cands => "ev=" ++ pairsStr cands
+  | .skip => "skip"
+  | .fail o => outStr sorted o
+
+def statusesStr (sc : Sched) : String :=
+  joinWith " " ((List.range sc.threads.length).map fun t =>
+    match sc.threads[t]? with
+    | some th => toString t ++ ":" ++ statusChar sc.s t th
+    | none => "?")
+
+inductive DState where
+  | seq (a : Api)
+  | sched (sc : Sched)
+
+def handleSched (sc : Sched) (toks : List String) (line : String) : Sched × String :=
+  let sorted := sc.s.kind ≠ .lru
+  match toks with
+  | "prog" :: t :: _ =>
+    match nat? t with
+    | some t =>
+      -- the program text is everything after "prog <t> "
+      let rest := joinWith " " (toks.drop 2)
+      match parseProg rest, sc.threads[t]? with
+      | some p, some th => ({ sc with threads := sc.threads.set t { th with prog := p } }, "ok | " ++ snapStr sc.s)
+      | _, _ => (sc, "bad-op")
+    | none => (sc, "bad-op")
+  | ["step", t] =>
+    match nat? t with
+    | some t =>
+      match sc.step t with
+      | (sc', some evs) =>
+        let e := if evs.isEmpty then "-" else joinWith "," (evs.map (eventStr sorted))
+        (sc', e ++ " ; " ++ statusesStr sc' ++ " | " ++ snapStr sc'.s)
+      | (sc', none) => (sc', "notrunnable ; " ++ statusesStr sc' ++ " | " ++ snapStr sc'.s)
+    | none => (sc, "bad-op")
+  | "reorder" :: ks =>
+    match parseNats ks with
+    | some perm =>
+      let (s1, o) := reorder sc.s perm
+      ({ sc with s := s1 }, (match o with | .unit => "ok" | o => outStr sorted o) ++ " | " ++ snapStr s1)
+    | none => (sc, "bad-op")
+  | ["adv", d] =>
+    match nat? d with
+    | some d => let s1 := (tick sc.s d).1; ({ sc with s := s1 }, "ok | " ++ snapStr s1)
+    | none => (sc, "bad-op")
+  | _ => let _ := line; (sc, "bad-op")
+
 /-- one request line → new state and reply line -/
-def handleLine (a : Api) (line : String) : Api × String :=
+def handleLine (d : DState) (line : String) : DState × String :=
   let toks := (line.trimAscii.toString.splitOn " ").filter (· ≠ "")
   match toks with
   | ["init", k] =>
     match parseKind k with
-    | some kind => let a' := Api.init kind; (a', "ok | " ++ snapStr a'.s)
-    | none => (a, "bad-op")
+    | some kind => let a' := Api.init kind; (.seq a', "ok | " ++ snapStr a'.s)
+    | none => (d, "bad-op")
+  | ["sinit", k, n] =>
+    match parseKind k, nat? n with
+    | some kind, some n => let sc := Sched.init kind n; (.sched sc, "ok | " ++ snapStr sc.s)
+    | _, _ => (d, "bad-op")
   | _ =>
-    match parseCall toks with
-    | some c =>
-      let (a', r) := a.exec c
-      (a', respStr (a.s.kind ≠ .lru) r ++ " | " ++ snapStr a'.s)
-    | none => (a, "bad-op")
+    match d with
+    | .seq a =>
+      match parseCall toks with
+      | some c =>
+        let (a', r) := a.exec c
+        (.seq a', respStr (a.s.kind ≠ .lru) r ++ " | " ++ snapStr a'.s)
+      | none => (d, "bad-op")
+    | .sched sc =>
+      let (sc', r) := handleSched sc toks line
+      (.sched sc', r)
 
 end Lockable
